@@ -20,7 +20,7 @@ FUNCTIONS = ['dtw.warping_paths', 'dd_dtw.c dtw_warping_paths, dtw_warping_paths
              'dtw_settings_wps_length/width, dtw_wps_parts', 'dtw_expand_wps, dtw_expand_wps_slice',
              'dtw_cc.pyx warping_paths (transcribed: direct-buffer decision)']
 BOUNDS = {'quick': {'r,c': '1..4 (data dependent control: 1..3)', 'window': 'all', 'psi': 'None, 1, tuples', 'penalty': 'None|symbolic',
-                    'max_step / max_dist': 'symbolic, r,c <= 3', 'slices (C)': 'all for r,c <= 2, seeded for larger'},
+                    'max_step / max_dist': 'symbolic, r,c <= 3', 'slices (C)': 'all prefix slices for r*c <= 2, 3 seeded ones for larger (slices with an offset: known finding F04-slice-offset)'},
           'thorough': {'r,c': '1..5 (data dependent control: r*c <= 12)', 'window': 'all', 'psi': 'None, 1, 2, tuples',
                        'penalty': 'None|symbolic', 'max_step / max_dist': 'symbolic', 'slices (C)': 'all for r,c <= 3, seeded for larger'}}
 OUTSIDE = ['the affinity variant (C18)', 'printing routines', 'floating point rounding']
